@@ -658,7 +658,7 @@ static void exec_asm(Run &R, TaskRt &T, int ti, int oi, const Op &op) {
     SimFile *f = file_lookup(op.path);
     if (f && f->kind == 3) f = file_lookup(f->data);  // a symbolic link names the file it points to
     if (f) {
-      file_kind = f->kind;
+      file_kind = f->kind == 4 ? 0 : f->kind;  // somebody else's readable file is a readable file
       a.text = f->data;
     }
     R.st.file_ops++;
